@@ -83,13 +83,14 @@ prop('C07', ['P1', 'P2cxx', 'P2py', 'P3', 'P4', 'W1', 'H3', 'K3', 'M7'],
      'working copy (W1); <, <=, >, >=, is_suffix are wired as converses (H3).',
      ['exactness over all pairs', 'offset arithmetic of the re-ordering branch'])
 
-prop('C08', ['I3', 'M5', 'M5b', 'M6', 'F9', 'T6', 'K1'],
+prop('C08', ['I3', 'M5', 'M5b', 'M6', 'F9', 'T6', 'K1', 'K3', 'M7', 'M1'],
      'Inspection / constructors: entry(i)/child(i) range test and normalisation dominate all uses '
      'of the index (I3); every new treespec gets none_is_leaf and namespace from its source(s) and '
      'passes the sanity check before it escapes (M5, 14 creation sites); a treespec derived from '
      'two treespecs merges both namespaces (M5b); children() and child() '
      'slice with the same expressions (M6); each treespec_<kind> builds the container its name '
-     'says (F9); the Python predicates use the engine\'s formulas (T6); K1.',
+     'says (F9); the Python predicates use the engine\'s formulas (T6); K1; the collection '
+     'constructor enumerates children, keys and metadata exactly like flatten (K3, M7, M1).',
      ['count identities', 'transform/compose algebra', 'repr text'])
 
 prop('C09', ['M4', 'M5b', 'P1', 'P4', 'K4', 'F1', 'F2'],
